@@ -14,11 +14,11 @@ from harness.pool import pmap
 
 PROP = "C10"
 CLASSES = ["Elementwise", "Permute", "DropLead", "ResizeLead", "AddLead", "DropGridDim", "ReplaceOnGrid", "Remap", "Dual",
-           "Subset", "IndexGridDim", "Copy", "ThroughDataset"]
+           "Subset", "IndexGridDim", "Copy", "ThroughDataset", "MixedDataset"]
 CONSTS = "CONSTANTS\n MaxDepth = %d\n Broken = %s\n EmitSucc = %s\n"
 BROKEN_CFG = "SPECIFICATION Spec\n" + CONSTS + "INVARIANT %s\nCHECK_DEADLOCK FALSE\n"
 MODEL_CFG = ("SPECIFICATION Spec\n" + CONSTS + "INVARIANT TypeOK\nINVARIANT IsUx\nINVARIANT GridDimsConsistent\nINVARIANT DataFollowsGrid\n"
-             "PROPERTY SameGrid\nPROPERTY DeepCopyFresh\nPROPERTY GridsGrow\nCHECK_DEADLOCK FALSE\n")
+             "PROPERTY SameGrid\nPROPERTY DeepCopyFresh\nPROPERTY GridsGrow\nPROPERTY MixedGridDimsConsistent\nCHECK_DEADLOCK FALSE\n")
 GEN_CFG = "SPECIFICATION Spec\n" + CONSTS + "INVARIANT Emit\nVIEW GenView\nCHECK_DEADLOCK FALSE\n"
 SIM_CFG = "SPECIFICATION Spec\n" + CONSTS + "INVARIANT TypeOK\nCHECK_DEADLOCK FALSE\n"
 TRACE_CFG = "SPECIFICATION TSpec\n" + CONSTS % (12, "FALSE", "FALSE") + "INVARIANT Report\nCHECK_DEADLOCK FALSE\n"
@@ -52,8 +52,8 @@ def parse_succ_tables(out):
         moves = {}
         for r, ops in succ:
             ra, rG = _plain(r["a"]), _plain(r["G"])
-            for op, d, free in ops:
-                moves[(str(op), str(d))] = (bool(free), ra, rG)
+            for op, d, m, free in ops:
+                moves[(str(op), str(d), "+".join(sorted(map(str, m))))] = (bool(free), ra, rG)
         if k in table and table[k][2].keys() != moves.keys():
             raise Machinery("successor table of a state differs between depths")
         table[k] = (a, G, moves)
@@ -71,12 +71,12 @@ def full_trie(table, k, depth):
     a, G, moves = table[k]
     kids = {}
     if depth > 0:
-        for (op, d), (free, ra, rG) in sorted(moves.items()):
+        for key, (free, ra, rG) in sorted(moves.items()):
             n = new_node(free, ra, rG)
             kk = skey(ra, rG)
             if depth > 1 and kk in table:
                 n["kids"] = full_trie(table, kk, depth - 1)
-            kids[(op, d)] = n
+            kids[key] = n
     return kids
 
 
@@ -101,18 +101,18 @@ def sample_path(table, k, depth, rng, memo):
         ws = [count_paths(table, skey(m[1][1], m[1][2]), depth - 1, memo) for m in moves]
         if sum(ws) == 0:
             return None
-        (op, d), (free, ra, rG) = rng.choices(moves, weights=ws)[0]
-        path.append((op, d, free, ra, rG))
+        key, (free, ra, rG) = rng.choices(moves, weights=ws)[0]
+        path.append((key, free, ra, rG))
         k = skey(ra, rG)
         depth -= 1
     return path
 
 
 def add_path(kids, path):
-    for op, d, free, ra, rG in path:
-        n = kids.get((op, d))
+    for key, free, ra, rG in path:
+        n = kids.get(key)
         if n is None:
-            n = kids[(op, d)] = new_node(free, ra, rG)
+            n = kids[key] = new_node(free, ra, rG)
         kids = n["kids"]
 
 
@@ -184,24 +184,30 @@ class Runner:
         self.traces.append({"id": tid, "init": {"arr": init[0], "grids": init[1]}, "steps": [{k: v for k, v in s.items() if k != "on"} for s in steps],
                             "pre_kinds": [s["on"] for s in steps]})
 
-    def step(self, op, d, node, x, xp, reg, env, a, G):
+    def step(self, op, d, mix, node, x, xp, reg, env, a, G):
         """Apply one operation to the real array and the plain mirror; return (line, result, plain result)."""
         hux_ = X.hux.import_ux()
         own = X.base(op) in X.OWN_OPS
         free = node["free"]
-        ln = {"op": op, "d": d, "out": "value", "val": "na", "src": [], "sel": []}
+        ln = {"op": op, "d": d, "m": list(mix), "out": "value", "val": "na", "src": [], "sel": [], "comp": []}
         r = rp = None
         err = perr = None
         select = X.base(op) in X.SELECT_OPS
         # a selection of FACES is exact (not inclusive): plain xarray's isel on the same data is the value oracle there too
-        use_oracle = (not own and X.base(op) not in X.FREE_OPS) or (select and X.grid_dim(x) == "n_face")
+        use_oracle = ((not own and X.base(op) not in X.FREE_OPS) or (select and X.grid_dim(x) == "n_face")) and not mix
         if use_oracle:
             try:
                 rp = X.apply(op, d, xp)
+
             except Exception as ex:  # noqa
                 perr = "%s: %s" % (type(ex).__name__, str(ex)[:160])
         try:
-            r = X.apply(op, d, x, dest=env["dest"])
+            full = None
+            if mix:
+                full = X.apply_ds_full(op, d, x, dest=env["dest"], mix=mix)
+                r = full["v"]
+            else:
+                r = X.apply(op, d, x, dest=env["dest"])
         except Exception as ex:  # noqa
             err = "%s: %s" % (type(ex).__name__, str(ex)[:160])
         if err is not None:
@@ -225,7 +231,7 @@ class Runner:
             return ln, r, rp
         ln.update(X.project(r, reg))
         if select and ln["cls"] == "Ux" and ln["grid"] != 0 and X.grid_dim(r) is not None:
-            ln["src"], ln["sel"] = X.selection_maps(op, x, r, dest=env["dest"])
+            ln["src"], ln["sel"] = X.selection_maps(op, x, r, dest=env["dest"], d=d, mix=mix)
             if not use_oracle:
                 # node / edge selections are inclusive: the data must be the operand's data at the tracer's source indices
                 k = X.grid_dim(x)
@@ -236,6 +242,8 @@ class Runner:
                     ln["val"] = "eq" if tuple(r.dims) == tuple(x.dims) and X._arr_eq(np.asarray(r.values), want) else "diff"
                 except Exception:  # noqa
                     ln["val"] = "diff"
+        if mix and ln["cls"] == "Ux":
+            ln["comp"] = X.observe_companions(op, full, x, mix, reg, X.project)
         if use_oracle and rp is not None:
             ln["val"] = "eq" if X.same_as_plain(r, rp) else "diff"
             # the operation table itself against xarray: predicted dims of the result
@@ -251,12 +259,13 @@ class Runner:
 
     def walk(self, kids, x, xp, reg, env, a, G, pid, seg_init, seg, restart):
         ux = X.hux.import_ux()
-        for (op, d), node in sorted(kids.items()):
+        for (op, d, mx), node in sorted(kids.items()):
             self.nodes += 1
             reg2 = reg.clone()
-            ln, r, rp = self.step(op, d, node, x, xp, reg2, env, a, G)
+            mix = tuple(mx.split("+")) if mx else ()
+            ln, r, rp = self.step(op, d, mix, node, x, xp, reg2, env, a, G)
             e, eG, free = node["a"], node["G"], node["free"]
-            prog = pid + "/" + (op if d == "-" else op + ":" + d)
+            prog = pid + "/" + (op if d == "-" else op + ":" + d) + ("[%s]" % mx if mx else "")
             tid = prog if restart == 0 else "%s@%d" % (prog, restart)
             failed = py_failed(ln, a, G, free, e)
             line = {k: v for k, v in ln.items() if k not in ("err", "perr", "rtype")}
@@ -414,10 +423,16 @@ def run(ctx):
         ctx.exhaustive = True
         # budget: pairs that mix one dataset-level with one array-level operation are sampled 1 in 3 in the quick tier
         # (all array x array pairs, all dataset x dataset pairs and every single operation stay exhaustive)
+        # and of the pairs containing an operation on a MIXED dataset 1 in 60 (every such single operation is replayed:
+        # all mixes x all selection dimensions x all start arrays)
         for s in starts:
-            for (op1, _d1), n1 in tries[s].items():
+            for (op1, _d1, m1), n1 in tries[s].items():
                 for k2 in sorted(n1["kids"]):
-                    if op1.startswith("ds_") != k2[0].startswith("ds_") and rng.random() >= 1.0 / 3.0:
+                    if m1 or k2[2]:
+                        keep = rng.random() < 1.0 / 60.0
+                    else:
+                        keep = op1.startswith("ds_") == k2[0].startswith("ds_") or rng.random() < 1.0 / 3.0
+                    if not keep:
                         del n1["kids"][k2]
 
     # 2b. long programs from simulation (thorough)
@@ -438,7 +453,7 @@ def run(ctx):
             prog = []
             for prev, st in zip(sts, sts[1:]):
                 o = st["last"]
-                prog.append((o["op"], o["d"], None, st["arr"], st["grids"], prev["arr"]))
+                prog.append((o["op"], o["d"], "+".join(sorted(o.get("m") or [])), None, st["arr"], st["grids"], prev["arr"]))
             sim_programs.append((sts[0]["arr"], sts[0]["grids"], prog))
         if not sim_programs:
             raise Machinery("no simulation behaviours parsed")
@@ -452,12 +467,12 @@ def run(ctx):
     # simulation programs: the free flag is not part of the state; recompute from the table when known, else from dims
     for i, (a0, G0, prog) in enumerate(sim_programs):
         kids = root = {}
-        for (op, d, _, ea, eG, pa) in prog:
+        for (op, d, mx, _, ea, eG, pa) in prog:
             gpos = [j for j, q in enumerate(pa["dims"]) if q["k"] in X.GRID_KINDS]
             last_axis = X.base(op) in (set(X.TOPO) | set(X.REMAP) | {"integrate", "gradient", "difference"})
-            free = X.base(op) in X.FREE_OPS or (last_axis and not (gpos and gpos[0] == len(pa["dims"]) - 1))
+            free = X.base(op) in X.FREE_OPS or (last_axis and not (gpos and gpos[0] == len(pa["dims"]) - 1)) or (op == "ds_remap_nn_face" and "c0" in mx)
             n = new_node(free, ea, eG)
-            kids[(op, d)] = n
+            kids[(op, d, mx)] = n
             kids = n["kids"]
         tasks.append(("sim%d:%s" % (i, start_id(a0)), a0, G0, root))
     rng.shuffle(tasks)
@@ -496,19 +511,25 @@ def run(ctx):
     def synth(tid, ops):
         steps0, cur = [], s0
         for op in ops:
-            free_, ea, eG = table[cur][2][(op, "-")]
+            op, d_, mx_ = op if isinstance(op, tuple) else (op, "-", "")
+            free_, ea, eG = table[cur][2][(op, d_, mx_)]
             cnt = sub_cnt if eG[ea["grid"] - 1]["kind"] == "subset" else base_cnt
-            steps0.append({"op": op, "d": "-", "out": "value", "val": "eq", "cls": "Ux", "grid": ea["grid"], "name": "v",
+            steps0.append({"op": op, "d": d_, "out": "value", "val": "eq", "cls": "Ux", "grid": ea["grid"], "name": "v",
                            "dims": [{"k": q["k"], "n": q["n"], "size": cnt[q["k"]] if q["k"] in X.GRID_KINDS else q["n"]} for q in ea["dims"]],
                            "g": {"cnt": cnt, "eq": [1] if X.base(op) in X.COPY_OPS else [], "share": [], "mem": [], "leak": []},
-                           "src": [0, 1] if X.base(op) in X.SELECT_OPS else [], "sel": [0, 1] if X.base(op) in X.SELECT_OPS else []})
+                           "src": [0, 1] if X.base(op) in X.SELECT_OPS else [], "sel": [0, 1] if X.base(op) in X.SELECT_OPS else [],
+                           "m": mx_.split("+") if mx_ else [],
+                           "comp": [{"c": c, "cls": "Ux", "grid": ea["grid"], "src": [0, 1] if c != "c0" else [], "sel": [0, 1] if c != "c0" else [], "val": "eq",
+                                     "dims": [{"k": k, "n": ea["grid"] if k in X.GRID_KINDS else X.AUX_LEN[k], "size": cnt[k] if k in X.GRID_KINDS else X.AUX_LEN[k]}
+                                              for k in X.COMP_SHAPE[c]]} for c in (mx_.split("+") if mx_ else [])]})
             cur = skey(ea, eG)
         t = {"id": tid, "init": {"arr": a0, "grids": G0}, "steps": steps0, "pre_kinds": ["base"] * len(ops)}
         traces.append(t)
         return t
 
     bases = {"abs": synth("corrupt:none", ["abs", "abs"]), "sel": synth("corrupt:none-select", ["abs", "isel_grid_kw"]),
-             "copy": synth("corrupt:none-copy", ["abs", "copy_deep"])}
+             "copy": synth("corrupt:none-copy", ["abs", "copy_deep"]),
+             "mix": synth("corrupt:none-mixed", ["abs", ("ds_isel_grid_kw", "n_face", "cf+cn")])}
 
     def corrupted(tag, clause, edit, base="abs"):
         t = json.loads(json.dumps({k: bases[base][k] for k in ("id", "init", "steps")}))
@@ -532,6 +553,13 @@ def run(ctx):
     corrupted("mem", "DeepCopyIndependent", lambda l: l["g"].update(mem=[1]), base="copy")
     corrupted("leak", "DeepCopyIndependent", lambda l: l["g"].update(leak=[1]), base="copy")
     corrupted("uneq", "DeepCopyIndependent", lambda l: l["g"].update(eq=[]), base="copy")
+    corrupted("mix-cls", "MixedIsUx", lambda l: l["comp"][1].update(cls="Plain"), base="mix")
+    corrupted("mix-grid", "MixedSameGrid", lambda l: l["comp"][1].update(grid=1), base="mix")
+    corrupted("mix-size", "MixedGridDims", lambda l: l["comp"][1]["dims"][0].update(size=12), base="mix")
+    corrupted("mix-sym", "MixedGridDims", lambda l: l["comp"][1]["dims"][0].update(n=1), base="mix")
+    corrupted("mix-kind", "MixedDimsEffect", lambda l: l["comp"][1]["dims"][0].update(k="n_edge"), base="mix")
+    corrupted("mix-gone", "MixedDimsEffect", lambda l: l["comp"].pop(), base="mix")
+    corrupted("mix-order", "MixedFollowsGrid", lambda l: l["comp"][1].update(src=[1, 0]), base="mix")
 
     # 4. TLC validates the recorded traces against UxOps
     path = os.path.join(ctx.work, "traces.ndjson")
@@ -580,8 +608,10 @@ def run(ctx):
     for tid, (ln, cl) in rejected.items():
         if "Init" in cl or "IsEvent" in cl or "Enabled" in cl:
             raise Machinery("trace %s rejected by %s: generator and trace specification disagree" % (tid, cl))
-        if tid not in pyv or pyv[tid][0] != ln or pyv[tid][1] != cl:
-            raise Machinery("judge/driver disagreement on %s: TLC %s, driver %s" % (tid, (ln, cl), pyv.get(tid)))
+        core = [c for c in cl if not c.startswith("Mixed")]   # the Mixed* clauses are TLC's alone: the driver does not predict them
+        if core or tid in pyv:
+            if tid not in pyv or pyv[tid][0] != ln or pyv[tid][1] != core:
+                raise Machinery("judge/driver disagreement on %s: TLC %s, driver %s" % (tid, (ln, cl), pyv.get(tid)))
     for tid in pyv:
         if tid not in rejected:
             raise Machinery("driver flagged %s %s but TLC accepted the trace" % (tid, pyv[tid][:2]))
@@ -595,7 +625,11 @@ def run(ctx):
         for clause in cl:
             # abstract signature, from the specification's side: operation and the kind of grid it was applied on
             sig = {"op": step["op"], "on": t["pre_kinds"][ln - 1]}
-            hit = ctx.violation(tid, clause, detail={"line": ln, "failed": cl, "observed": pyv[tid][2]}, sig=sig,
+            obs = pyv[tid][2] if tid in pyv else {k: step.get(k) for k in ("cls", "grid", "dims", "g", "comp", "m")}
+            if clause.startswith("Mixed"):
+                sig["mix"] = "+".join(step.get("m", []))
+                obs = {"comp": step.get("comp"), "grid": step.get("grid"), "g": step.get("g")}
+            hit = ctx.violation(tid, clause, detail={"line": ln, "failed": cl, "observed": obs}, sig=sig,
                                 replay={"trace": t, "start": t["init"], "how": "harness.x_c10.apply(op, d, x) step by step from start_array"})
             per_sig[(clause, step["op"])] = per_sig.get((clause, step["op"]), 0) + 1
     ctx.note("rejections_by_clause_op", {"%s/%s" % k: v for k, v in sorted(per_sig.items())})
